@@ -9,6 +9,7 @@ def run(tier, seed):
     chk.proof(hc.MODULES['C10'], hc.THEOREMS['C10'])
     nlow, nseg, nmsg = hc.sizes(tier)
     runs = hc.low_level(chk, nlow)
+    hc.api_level(chk, hc.api_size(tier))
     for r in runs:
         for i, bad in enumerate(r['inv']):
             chk.evals += 1
